@@ -21,6 +21,8 @@ func main() {
 	switch os.Args[1] {
 	case "drive":
 		os.Exit(drive(os.Args[2:]))
+	case "pairs":
+		os.Exit(pairsMain(os.Args[2:]))
 	}
 	fmt.Fprintln(os.Stderr, "unknown subcommand")
 	os.Exit(2)
